@@ -109,6 +109,10 @@ def gen_program(rng, names=None):
                 out.append(("do", via(), "me." + m))
             else:
                 out.append(("put", T[st][0], T[st][1]))
+        # implicit framer-state needs: go <frame> if elapsed/recurred <cmp> value | goal [+- tol]
+        for _ in range(rng.randint(1, 3)):
+            out.append(("need", rng.choice(["elapsed", "recurred"]), rng.choice(["value", "goal", "goaltol"]),
+                        ("N", frames_here[0])))
         return out
 
     framers = ["F0", "M0", "M1"]
@@ -183,6 +187,9 @@ def render(spec, names):
             for r in f["refs"]:
                 if r[0] == "put":
                     L.append("      put 1 into %s%s" % (r[1], rel(r[2])))
+                elif r[0] == "need":
+                    L.append("      go %s if %s %s" % (nm(r[3][1]), r[1], {"value": ">= 0.5", "goal": ">= goal",
+                                                                            "goaltol": "== goal +- 0.1"}[r[2]]))
                 else:
                     L.append("      do doer param at enter%s per color %s" % ((" via " + r[1]) if r[1] else "", r[2]))
             if f["aux"]:
@@ -374,13 +381,54 @@ def c_relation(I, names, r):
 
 
 def put_refs(spec):
-    """marker -> (written path, relation) of every `put` reference of the program"""
+    """key -> (written path, relation) of every `put` reference (key = its marker) and of every
+    implicit framer-state need (key = need|<frame entity>|<k>|state or goal; what makeFramerNeed
+    writes: framer.me.state.<name> / framer.me.goal.<name>)"""
     out = {}
     for fr in spec["framers"]:
         for f in fr["frames"]:
+            k = 0
             for r in f["refs"]:
                 if r[0] == "put":
                     out[r[1].split(".")[-1]] = (r[1], r[2])
+                elif r[0] == "need":
+                    out["need|%s|%d|state" % (f["name"], k)] = ("framer.me.state.%s" % r[1], None)
+                    if r[2] != "value":
+                        out["need|%s|%d|goal" % (f["name"], k)] = ("framer.me.goal.%s" % r[1], None)
+                    k += 1
+    return out
+
+
+def need_destinations(builder, names):
+    """key (see put_refs) -> [(need act, share name)] for the needs of every resolved transition"""
+    from ioflo.base import storing, framing
+    inv = {v: k for k, v in names.items()}
+    out = {}
+    for house in builder.houses:
+        for framer in house.framers:
+            for fr in framer.frameNames.values():
+                if not all(isinstance(a, framing.Framer) for a in fr.auxes) or fr.name not in inv:
+                    continue
+                k = 0
+                for act in fr.preacts:
+                    if isinstance(act.frame, str) or type(act.actor).__name__ != "Transiter":
+                        continue
+                    for need in (act.parms or {}).get("needs", []):
+                        st = need.parms.get("state") if need.parms else None
+                        if not isinstance(st, storing.Share) or ".state." not in "." + st.name:
+                            continue
+                        ctxact = need if not isinstance(need.frame, str) and need.frame is not None else act
+                        out.setdefault("need|%s|%d|state" % (inv[fr.name], k), []).append((ctxact, st.name))
+                        g = need.parms.get("goal")
+                        if isinstance(g, storing.Share):
+                            out.setdefault("need|%s|%d|goal" % (inv[fr.name], k), []).append((ctxact, g.name))
+                    k += 1
+    return out
+
+
+def all_destinations(builder, names):
+    out = dict(poke_destinations(builder))
+    out.update(need_destinations(builder, names))
     return out
 
 
